@@ -274,6 +274,11 @@ def run(ctx):
     d10_temp_reg_distinct(db, rep)
     d11_exec_only_if_executable(db, rep)
     d12_gp_alloc_checked(db, rep)
+    compiler_var_scans_complete(db, rep, "D14-VAR-SCAN-COMPLETE")
+    # D15: "no rule for an opcode on the target" must be FOUND OUT: a rule is taken from a rule set only if that set belongs to the
+    # opcode's own opcode set, otherwise an opcode without a rule is compiled with the rule of another opcode (shared with C20 D2)
+    import importlib as _il15
+    _il15.import_module("rules.c20").d2(db, rep, "D15-RULE-OF-OWN-SET")
     # D13: "no failure of the operating system to provide ... an executable mapping crashes the process": the allocator's failure
     # exits release the global mutex (rule shared with C08 D2)
     import importlib as _il13
@@ -568,4 +573,51 @@ def d12_gp_alloc_checked(db, rep, rule="D12-GP-ALLOC-CHECKED"):
                       "(rax, which holds another pointer) instead of falling back to emulation" % (f.name, lp), line=x.line)
     if n < 3:
         raise AnalysisBroken("only %d general-register allocations found in orccompiler.c" % n)
+    return n
+
+
+def compiler_var_scans_complete(db, rep, rule):
+    """The compiler's variable table (OrcCompiler.vars, ORC_N_COMPILER_VARIABLES entries) holds the program's variables AND the
+    temporaries the compiler adds (duplicates, loaded parameters: numbers 64 and up in a program with 16 temporaries).  A pass
+    that scans "all variables" - liveness for scratch registers, register allocation, clean-up - must reach the end of that
+    table; stopping at ORC_N_VARIABLES, the size of the PROGRAM's table, makes the added temporaries invisible: a live value's
+    register is handed out as scratch and the JIT code miscomputes without any error.  Every counted loop from 0 over
+    compiler->vars[] that has an effect (more than logging) must end at the capacity, or at the last variable of a class
+    (ORC_VAR_D4, S8, A4, C8, P8, T16: deliberate class walks)."""
+    from loops import counted
+    tu = db.tu("orccompiler")
+    cap = db.field("OrcCompiler", "vars")["alen"]
+    ends = {v for k, v in tu.enums.items() if k in ("ORC_VAR_D4", "ORC_VAR_S8", "ORC_VAR_A4", "ORC_VAR_C8", "ORC_VAR_P8", "ORC_VAR_T16")}
+    n = 0
+    for f in db.all_functions():
+        if not f.relfile.startswith("orc/") or f.body is None:
+            continue
+        for lp in [x for x in f.walk() if x.k == "ForStmt"]:
+            cl = counted(lp)
+            if not cl or cl["dir"] != "asc" or cl["first"] != (None, 0) or cl["last"][0] is not None:
+                continue
+            body = lp.c[3]
+            if body is None:
+                continue
+            idx = [x for x in body.walk() if x.k == "ArraySubscriptExpr" and (access_path(x.c[0]) or "") == "compiler->vars"
+                   and strip_casts(x.c[1]) is not None and strip_casts(x.c[1]).k == "DeclRefExpr" and strip_casts(x.c[1]).name == cl["var"]]
+            if not idx:
+                continue
+            # effect: an assignment, ++/--, or a call that is not a debug print
+            eff = any((y.k in ("BinaryOperator", "CompoundAssignOperator") and y.op.endswith("=") and y.op not in ("==", "!=", "<=", ">=")) or
+                      (y.k == "UnaryOperator" and y.op in ("++", "--")) or
+                      (y.k == "CallExpr" and (y.name or "") not in ("orc_debug_print", "orc_debug_get_level")) or y.k in ("ReturnStmt",)
+                      for y in body.walk())
+            if not eff:
+                continue
+            n += 1
+            rep.saw(f)
+            last = cl["last"][1]
+            rep.check(last == cap - 1 or last in ends, rule, where(f), "%s:vars[%s]@%s" % (f.name, cl["var"], lp.line),
+                      "the scan over compiler->vars[] ends at %d (%s)" % (last, "the table's capacity" if last == cap - 1 else "the last variable of a class"),
+                      "%s scans compiler->vars[] from 0 to %d, but the table has %d entries: the temporaries the compiler adds beyond the program's own "
+                      "variables (numbers %d and up) are not seen by this pass - a live one keeps its register out of the scan, the register is handed out as "
+                      "scratch and the generated code overwrites a live value" % (f.name, last, cap, last + 1), line=lp.line)
+    if n < 8:
+        raise AnalysisBroken("only %d effectful scans of compiler->vars[] found" % n)
     return n
